@@ -9,6 +9,7 @@ Nothing here decides the property: anything that cannot be traced makes the
 case `unsupported`.'''
 import os
 import re
+import shutil
 
 from pv import core
 
@@ -31,7 +32,17 @@ LFRIC_KERNELS = {
     "tk5": ("testkern_mod", "testkern_type", "testkern_code", 5),
     "tk2": ("testkern_w2_only_mod", "testkern_w2_only_type",
             "testkern_w2_only_code", 2),
+    # stencil (variable / literal extent, xory1d direction) and quadrature
+    "tks": ("testkern_stencil_mod", "testkern_stencil_type",
+            "testkern_stencil_code", 5),
+    "tkx": ("testkern_stencil_xory1d_mod", "testkern_stencil_xory1d_type",
+            "testkern_stencil_xory1d_code", 6),
+    "tkq": ("testkern_qr_mod", "testkern_qr_type", "testkern_qr_code", 7),
 }
+LFRIC_EXTRA = {"tks", "tkx", "tkq"}
+LFRIC_KERNEL_FILES = ["testkern_mod.F90", "testkern_w2_only_mod.f90",
+                      "testkern_stencil_mod.f90",
+                      "testkern_stencil_xory1d_mod.f90", "testkern_qr_mod.F90"]
 LFRIC_BUILTINS = {"setval_c": 2, "setval_x": 2, "inc_a_times_x": 2,
                   "x_plus_y": 3}
 
@@ -53,10 +64,34 @@ LFRIC_PRELUDE = '''\
   type(p_type) :: p
   real(r_def) :: x1, p_x, xv(2)
 '''
+# shapes with stencil / quadrature kernels: more objects
+LFRIC_PRELUDE_EXTRA = '''\
+  implicit none
+  type st_type
+     type(field_type) :: f1
+     type(field_type) :: fv(2)
+     real(r_def) :: x1
+     real(r_def) :: xv(2)
+     integer(i_def) :: n1, d1, i1
+     type(quadrature_xyoz_type) :: qr
+  end type st_type
+  type p_type
+     type(field_type) :: q
+     real(r_def) :: x
+  end type p_type
+  type(field_type) :: f1, f2, m1, m2, m3, p_q
+  type(field_type) :: fv(2)
+  type(st_type) :: st
+  type(p_type) :: p
+  real(r_def) :: x1, p_x, xv(2)
+  integer(i_def) :: n1, n2, d1, i1, nv(2)
+  type(quadrature_xyoz_type) :: qr, qr2
+'''
 # the base names the prelude declares (a shape using anything else is a
 # machinery error: the universe of the specification and the renderer differ)
 _KNOWN_BASES = {"f1", "f2", "m1", "m2", "m3", "p_q", "fv", "st", "p", "x1",
-                "p_x", "xv"}
+                "p_x", "xv", "n1", "n2", "d1", "i1", "nv", "qr", "qr2",
+                "x_direction", "y_direction"}
 _RE_LIT = re.compile(r"^[+-]?(\d+\.?\d*|\.\d+)([ed][+-]?\d+)?(_\w+)?$", re.I)
 
 
@@ -77,6 +112,18 @@ def lfric_dir():
         if os.path.isdir(path):
             return path
     raise core.MachineryError("LFRic test kernels not found")
+
+
+def prepare_kernels(tmp):
+    '''A private kernel directory (the repository's test directory holds a
+    second testkern_qr_mod in a sub-directory, which the kernel search
+    refuses).'''
+    kdir = os.path.join(tmp, "kernels_lfric")
+    if not os.path.isdir(kdir):
+        os.makedirs(kdir)
+        for name in LFRIC_KERNEL_FILES:
+            shutil.copy(os.path.join(lfric_dir(), name), kdir)
+    return kdir
 
 
 def render_lfric(shape):
@@ -105,12 +152,18 @@ def render_lfric(shape):
             parts.append("%s(%s)" % (name, ", ".join(call["args"])))
         body.append("  call invoke( &\n       " + ", &\n       ".join(parts)
                     + " )\n")
+    extra = any(c["k"] in LFRIC_EXTRA for inv in shape["invokes"]
+                for c in inv["calls"])
     src = "program c24_alg\n"
     src += "  use constants_mod, only: r_def, i_def\n"
     src += "  use field_mod, only: field_type\n"
+    if extra:
+        src += "  use quadrature_xyoz_mod, only: quadrature_xyoz_type\n"
+        src += "  use flux_direction_mod, only: x_direction, y_direction\n"
     for mod, typ in mods:
         src += "  use %s, only: %s\n" % (mod, typ)
-    src += LFRIC_PRELUDE + "".join(body) + "end program c24_alg\n"
+    src += (LFRIC_PRELUDE_EXTRA if extra else LFRIC_PRELUDE) + "".join(body) \
+        + "end program c24_alg\n"
     return src
 
 
@@ -263,8 +316,19 @@ def split_subroutines(text):
 
 _RE_PROXY = re.compile(r"^(\w+)\s*=\s*(\w+)\s*%\s*get_proxy\(\)$", re.I)
 _RE_DATA = re.compile(r"^(\w+)\s*=>\s*(\w+)\s*%\s*data$", re.I)
-_RE_INFRA = re.compile(r"^(nlayers|cell|ndf_\w+|undf_\w+|map_\w+\(:,\s*cell\))$",
-                       re.I)
+_RE_INFRA = re.compile(r"^(nlayers|cell|ndf_\w+|undf_\w+|map_\w+\(:,\s*cell\)"
+                       r"|(diff_)?basis_\w+)$", re.I)
+_RE_STMAP = re.compile(r"^(\w+)\s*=>\s*(\w+)\s*%\s*vspace\s*%\s*"
+                       r"get_stencil_dofmap\(\s*\w+\s*,\s*(.+?)\s*\)$", re.I)
+_RE_STDOFMAP = re.compile(r"^(\w+)\s*=>\s*(\w+)\s*%\s*get_whole_dofmap\(\)$",
+                          re.I)
+_RE_QRPROXY = re.compile(r"^(\w+)\s*=\s*(\w+)\s*%\s*get_quadrature_proxy\(\)$",
+                         re.I)
+_RE_QRPART = re.compile(r"^(\w+)\s*=>?\s*(\w+)\s*%\s*"
+                        r"(np_xy|np_z|weights_xy|weights_z)$", re.I)
+_RE_DECL = re.compile(r"^(type\(\s*\w+\s*\)|real(\(.*?\))?|integer(\(.*?\))?"
+                      r"|logical(\(.*?\))?)\s*,\s*intent\(\w+\)\s*::\s*(.+)$",
+                      re.I)
 _RE_BUILTIN = re.compile(r"^!\s*Built-in:\s*(\w+)", re.I)
 _RE_ASSIGN = re.compile(r"^(\w+)\(df\)\s*=\s*(.+)$", re.I)
 
@@ -274,8 +338,88 @@ class _LFRicRoutine:
         self.dummies = [d.lower() for d in dummies]
         self.proxy = {}
         self.data = {}
+        self.stmap = {}          # stencil map -> set of extent expressions
+        self.stdofmap = {}       # stencil dofmap pointer -> stencil map
+        self.qrproxy = {}        # quadrature proxy -> dummy
+        self.qrpart = {}         # np_xy_q / weights_z_q ... -> (proxy, part)
+        self.dtype = {}          # dummy -> declared type class
         self.events = []         # (kernel id or code name, [provenance])
         self._scan(lines)
+
+    def dtypes(self):
+        '''Declared type class per dummy; [] if one is not declared.'''
+        if all(d in self.dtype for d in self.dummies):
+            return [self.dtype[d] for d in self.dummies]
+        return []
+
+    def _declaration(self, m):
+        spec = m.group(1).lower().replace(" ", "")
+        if spec.startswith("type("):
+            cls = {"type(field_type)": "field",
+                   "type(quadrature_xyoz_type)": "qr"}.get(spec, "other")
+        elif spec.startswith("real"):
+            cls = "real"
+        elif spec.startswith("integer"):
+            cls = "integer"
+        else:
+            cls = "other"
+        for ent in split_args(m.group(5)):
+            name = re.match(r"\w+", ent.strip())
+            if name:
+                self.dtype[name.group(0).lower()] = cls
+
+    def _kernel_call(self, name, args):
+        '''Provenance of the data arguments of a kernel call in the order of
+        the invoke: field data and scalars; for a stencil access the extent
+        (from the get_stencil_dofmap call behind the dofmap that is passed)
+        then the direction; a quadrature rule once (all its parts must come
+        from one dummy).'''
+        prov = []
+        direction = None
+        in_stencil = False
+        qr_cur = None
+        for a in args:
+            low = a.strip().lower().replace(" ", "")
+            if re.match(r"^\w+_stencil_size(_\d+)?\(cell\)$", low):
+                in_stencil = True
+                continue
+            m = re.match(r"^(\w+)\(:,:,cell\)$", low)
+            if m and m.group(1) in self.stdofmap:
+                smap = self.stdofmap[m.group(1)]
+                exts = self.stmap.get(smap)
+                if not exts or len(exts) != 1:
+                    raise Unsupported("stencil extent not unique: " + a)
+                prov.append(self._classify(next(iter(exts))))
+                if prov[-1] is None:
+                    raise Unsupported("stencil extent is infrastructure")
+                if direction is not None:
+                    prov.append(direction)
+                direction, in_stencil = None, False
+                continue
+            if in_stencil:
+                if direction is not None:
+                    raise Unsupported("two arguments inside a stencil group")
+                direction = self._classify(a)
+                if direction is None:
+                    raise Unsupported("stencil direction is infrastructure")
+                continue
+            if low in self.qrpart:
+                prox, _ = self.qrpart[low]
+                if prox not in self.qrproxy:
+                    raise Unsupported("quadrature part of unknown proxy: " + a)
+                dummy = self.qrproxy[prox]
+                if dummy not in self.dummies:
+                    raise Unsupported("quadrature proxy of a non-dummy: " + a)
+                if qr_cur != dummy:
+                    prov.append(("d", dummy))
+                    qr_cur = dummy
+                continue
+            c = self._classify(a)
+            if c is not None:
+                prov.append(c)
+        if in_stencil or direction is not None:
+            raise Unsupported("incomplete stencil group in " + name)
+        self.events.append((name, prov))
 
     def _classify(self, expr):
         '''-> ("d", dummy) | ("l", literal text) | None for infrastructure.'''
@@ -299,6 +443,8 @@ class _LFRicRoutine:
                 return ("d", dummy)
             if low in self.dummies:
                 return ("d", low)
+            if low in ("x_direction", "y_direction"):
+                return ("l", low)
             if _RE_INFRA.match(low):
                 return None
             raise Unsupported("untraceable kernel argument: " + e)
@@ -364,16 +510,34 @@ class _LFRicRoutine:
             if m:
                 self.data[m.group(1).lower()] = m.group(2).lower()
                 continue
+            m = _RE_DECL.match(line)
+            if m:
+                self._declaration(m)
+                continue
+            m = _RE_STMAP.match(line)
+            if m:
+                self.stmap.setdefault(m.group(1).lower(), set()).add(
+                    m.group(3).lower())
+                continue
+            m = _RE_STDOFMAP.match(line)
+            if m:
+                self.stdofmap[m.group(1).lower()] = m.group(2).lower()
+                continue
+            m = _RE_QRPROXY.match(line)
+            if m:
+                self.qrproxy[m.group(1).lower()] = m.group(2).lower()
+                continue
+            m = _RE_QRPART.match(line)
+            if m:
+                self.qrpart[m.group(1).lower()] = (m.group(2).lower(),
+                                                   m.group(3).lower())
+                continue
             if _RE_ASSIGN.match(line):
                 raise Unsupported("dof assignment without built-in comment")
             m = _RE_CALL.match(line)
             if m and m.group(1).lower().endswith("_code"):
-                prov = []
-                for a in split_args(m.group(2) or ""):
-                    c = self._classify(a)
-                    if c is not None:
-                        prov.append(c)
-                self.events.append((m.group(1).lower(), prov))
+                self._kernel_call(m.group(1).lower(),
+                                  split_args(m.group(2) or ""))
         if pending:
             raise Unsupported("built-in comment without statement")
 
@@ -431,9 +595,11 @@ def build_cases(shape, alg_text, psy_text, api):
                     "acts": [enc(a) for a in actuals],
                     "subs": [enc(s) for s in subnames],
                     "dums": [enc(d) for d in sub[1]],
+                    "dtypes": rt.dtypes() if api == "lfric" else [],
                     "kargs": kargs,
                     "orig": [[enc(a) for a in c["args"]]
-                             for c in inv["calls"]]}
+                             for c in inv["calls"]],
+                    "okinds": [list(c["kinds"]) for c in inv["calls"]]}
             res.append(("case", case))
         except Unsupported as err:
             res.append(("unsupported", str(err)))
@@ -489,7 +655,7 @@ class _GORoutine:
 def decode_shape(shape):
     return {"id": shape["id"], "fam": shape["fam"],
             "invokes": [{"name": dec(inv["name"]),
-                         "calls": [{"k": c["k"],
+                         "calls": [{"k": c["k"], "kinds": list(c["kinds"]),
                                     "args": [dec(a) for a in c["args"]]}
                                    for c in inv["calls"]]}
                         for inv in shape["invokes"]]}
@@ -505,7 +671,7 @@ def work(job):
     out = {"id": shape["id"], "api": api, "paths": {}}
     if api == "lfric":
         src = render_lfric(shape)
-        kdir = lfric_dir()
+        kdir = prepare_kernels(tmp)
         paths = [("alg", False), ("psyir", True)]
         apiname = "dynamo0.3"
     else:
@@ -599,6 +765,8 @@ def work_example(job):
                 "call": enc(cname), "acts": [enc(a) for a in actuals],
                 "subs": [enc(s[0]) for s in subs],
                 "dums": [enc(d) for d in sub[1]],
-                "kargs": [], "orig": [[enc(a) for a in actuals]]}))
+                "dtypes": [], "kargs": [],
+                "orig": [[enc(a) for a in actuals]],
+                "okinds": [["other"] * len(actuals)]}))
         out["paths"][pname] = ("ok", res)
     return out
